@@ -1,6 +1,8 @@
 package cl
 
 import (
+	"math/big"
+
 	"github.com/ohler55/slip"
 	vrt "github.com/ohler55/slip/zzvrt"
 )
@@ -359,7 +361,9 @@ var zzC15Ten = [...]string{"", "", "twenty", "thirty", "forty", "fifty", "sixty"
 var zzC15OneTh = [...]string{"", "first", "second", "third", "fourth", "fifth", "sixth", "seventh", "eighth", "ninth"}
 var zzC15TeenTh = [...]string{"tenth", "eleventh", "twelfth", "thirteenth", "fourteenth", "fifteenth", "sixteenth", "seventeenth", "eighteenth", "nineteenth"}
 var zzC15TenTh = [...]string{"", "", "twentieth", "thirtieth", "fortieth", "fiftieth", "sixtieth", "seventieth", "eightieth", "ninetieth"}
-var zzC15Illion = [...]string{"", "thousand", "million", "billion"}
+var zzC15Illion = [...]string{"", "thousand", "million", "billion", "trillion", "quadrillion", "quintillion", "sextillion",
+	"septillion", "octillion", "nonillion", "decillion", "undecillion", "duodecillion", "tredecillion", "quattuordecillion",
+	"quindecillion", "sexdecillion", "septendecillion", "octodecillion", "novemdecillion", "vigintillion"}
 
 // zzC15RefEnglish: digits ds (most significant first, values 0..9, not all
 // zero unless a single 0). Words separated by one space, tens-ones joined by '-'.
@@ -586,6 +590,57 @@ func VerifC15English(ord, neg, fix, ns int) {
 		}
 	}
 	vrt.Assert(zzC15SameWords(text, want), "~R English text")
+}
+
+// VerifC15EnglishBig: ~R / ~:R of a bignum: the digit hd (1..9), then nz zeros,
+// then ns digits over 0..9 each (nz+ns+1 digits in all, up to 66: the
+// documented names go up to vigintillion = 10^63); more than 66 digits must
+// be a Lisp condition, not a fault.
+func VerifC15EnglishBig(ord, neg, hd, nz, ns int) {
+	cd := []byte{byte(hd)}
+	for i := 0; i < nz; i++ {
+		cd = append(cd, 0)
+	}
+	cd = append(cd, zzC15ChoiceDigits(ns)...)
+	nd := len(cd)
+	v := new(big.Int)
+	for i := 0; i < nd; i++ {
+		v.Mul(v, big.NewInt(10))
+		v.Add(v, big.NewInt(int64(cd[i])))
+	}
+	if neg != 0 {
+		v.Neg(v)
+	}
+	ctrl := []byte("~R")
+	if ord != 0 {
+		ctrl = []byte("~:R")
+	}
+	var arg slip.Object = (*slip.Bignum)(v)
+	if v.IsInt64() {
+		arg = slip.Fixnum(v.Int64())
+	}
+	got := zzC15Process(slip.NewScope(), ctrl, slip.List{arg, slip.Fixnum(7)})
+	vrt.Reach("compared")
+	vrt.Assert(got.class != 3, "~R: Go run-time fault instead of text")
+	if 66 < nd {
+		vrt.Assert(got.class != 0, "~R of a number beyond the named powers of a thousand returned text")
+		return
+	}
+	want := zzC15RefEnglish(cd, ord != 0)
+	vrt.Assert(got.class == 0, "~R signalled a condition for an integer it has names for")
+	vrt.Assert(got.pos == 1, "~R: arguments consumed")
+	text := got.text
+	if neg != 0 {
+		switch {
+		case 9 < len(text) && string(text[:9]) == "negative ":
+			text = text[9:]
+		case 6 < len(text) && string(text[:6]) == "minus ":
+			text = text[6:]
+		default:
+			vrt.Assert(false, "~R of a negative integer does not start with a sign word")
+		}
+	}
+	vrt.Assert(zzC15SameWords(text, want), "~R English text of a bignum")
 }
 
 // VerifC15Roman: ~@R (old == 0) and ~:@R (old == 1) of every integer with at
